@@ -1,7 +1,7 @@
 """C19 - projection returns nearest-point parameters (polylines)."""
 import random
 
-from common import F, cq, cql, cqll, cres, ctuple, fsl, fs, pts_json
+from common import F, copt, cq, cql, cqll, cres, ctuple, fsl, fs, pts_json
 
 PREWARM = False      # see impl_runner: no float pre-run for this stream
 COQ_MODULE = "NurbsV.Check.C19"
@@ -11,7 +11,10 @@ SHARD = 150
 RULE = ("polylines (degree 1, simple knots) with 1-8 segments, dyadic vertices in the plane or in space and dyadic "
         "non-uniform knots (so the float computation is exact or within rounding of the exact model); points on the "
         "curve (vertices, interior points of a segment), off the curve, beyond the ends, and configurations with ties "
-        "(equidistant from two pieces); non-trivial = at least 2 segments")
+        "(equidistant from two pieces); the same polylines stored as degree-1 NURBS with random positive weights (same "
+        "geometry, warped parameter - the exact model maps the foot parameter through the weights), curves that were "
+        "projected on before their control points were replaced, and polylines with a piece of zero length (the point "
+        "nearest to another piece); non-trivial = at least 2 segments")
 
 
 def polyline(rnd, nseg, dim):
@@ -59,9 +62,44 @@ def gen(tier, seed):
             x = [F(rnd.randint(-400, 400), 4) for _ in range(dim)]
         else:
             x = [F(rnd.randint(-40, 40), 8) for _ in range(dim)]
-        cases.append({"ks": fsl(ks), "P": pts_json(P), "x": fsl(x), "mode": mode, "nseg": len(P) - 1, "dim": len(x),
-                      "elevate": rnd.random() < 0.25})
+        case = {"ks": fsl(ks), "P": pts_json(P), "x": fsl(x), "mode": mode, "nseg": len(P) - 1, "dim": len(x),
+                "elevate": rnd.random() < 0.25, "W": None, "pre": None}
+        r = rnd.random()
+        if r < 0.25 and mode != "thin":
+            # degree-1 NURBS: same geometry, the parameter of the foot point is warped by the weights
+            case["W"] = fsl([F(rnd.randint(1, 8), rnd.choice((1, 2, 4))) for _ in P])
+            case["elevate"] = False
+            case["mode"] = mode + "+weights"
+        elif r < 0.45:
+            # the curve had another geometry when it was first projected on (control points replaced afterwards)
+            case["pre"] = pts_json([[F(rnd.randint(-32, 32), 8) for _ in range(len(x))] for _ in P])
+            case["elevate"] = False
+            case["mode"] = mode + "+moved"
+        elif r < 0.55 and mode in ("off", "far", "interior") and len(P) >= 3:
+            # a piece of zero length (two equal consecutive vertices); kept only when the nearest point is elsewhere
+            j = rnd.randrange(1, len(P))
+            Q = [list(v) for v in P]
+            Q[j] = list(Q[j - 1])
+            if all(Q[i] != Q[i + 1] for i in range(len(Q) - 1) if i != j - 1) and _nearest_not_at(Q, x, Q[j]):
+                case["P"] = pts_json(Q)
+                case["elevate"] = False
+                case["mode"] = mode + "+degenerate"
+        cases.append(case)
     return cases
+
+
+def _nearest_not_at(P, x, v):
+    """exact: the minimum of the squared distance over the polyline is strictly smaller than the distance to vertex v"""
+    def d2(a, b):
+        return sum((s - t) ** 2 for s, t in zip(a, b))
+    best = None
+    for p, q in zip(P[:-1], P[1:]):
+        d = [b - a for a, b in zip(p, q)]
+        dd = sum(t * t for t in d)
+        lam = F(0) if dd == 0 else max(F(0), min(F(1), sum((s - a) * t for s, a, t in zip(x, p, d)) / dd))
+        c = [a + lam * t for a, t in zip(p, d)]
+        best = d2(c, x) if best is None else min(best, d2(c, x))
+    return best + F(1, 100) < d2(v, x)
 
 
 def impl(case):
@@ -72,7 +110,14 @@ def impl(case):
     ks = [float(k) for k in nums(case["ks"])]
     P = [np.array([float(v) for v in nums(pt)]) for pt in case["P"]]
     U = [ks[0]] + ks + [ks[-1]]
-    curve = Curve(U, P)
+    if case.get("pre"):
+        curve = Curve(U, [np.array([float(v) for v in nums(pt)]) for pt in case["pre"]])
+        capture(lambda: Projection.point_on_curve([float(v) for v in nums(case["x"])], curve), seconds=20)
+        curve.ctrlpoints = P
+    else:
+        curve = Curve(U, P)
+    if case.get("W"):
+        curve.weights = [float(w) for w in nums(case["W"])]
     if case.get("elevate"):
         curve.degree_increase(1)        # the same polyline stored with a higher degree
     before = (tuple(curve.knotvector), tuple(map(tuple, curve.ctrlpoints)))
@@ -83,7 +128,7 @@ def impl(case):
 
 
 def emit(case, out):
-    return ctuple(cql(case["ks"]), cqll(case["P"]), cql(case["x"]), cres(out["r"], cql),
+    return ctuple(cql(case["ks"]), cqll(case["P"]), copt(case.get("W"), cql), cql(case["x"]), cres(out["r"], cql),
                   "true" if out["same"] else "false")
 
 
